@@ -244,6 +244,7 @@ type fnEnc struct {
 	mergeInfo map[string]mergeRec // merged memory name -> conditions and the memories merged
 	loadDefs map[string]string // names defined as a load of a reference / slice from a memory
 	reachAt map[*ssa.BasicBlock]string // reachability of each block at its entry
+	privAllocs *[]*ssa.Alloc
 	transDone bool // the reflexive/transitive obligations of [transitive:] postconditions were emitted
 	V        *Verifier
 	fn       *ssa.Function
@@ -428,7 +429,156 @@ func (e *fnEnc) setHeap(st *state, key string, cell *Sort, term string) {
 	st.heap[key] = n
 }
 
+// privateAllocs: local variables of the function whose address never leaves it - every use of
+// the Alloc is a field/element address that is only loaded from or stored to. No callee can
+// write such a variable (Go has no way to reach it), so its cells survive a call that may
+// write anything.
+func (e *fnEnc) privateAllocs() []*ssa.Alloc {
+	if e.privAllocs != nil {
+		return *e.privAllocs
+	}
+	var out []*ssa.Alloc
+	var onlyLocal func(v ssa.Value) bool
+	onlyLocal = func(v ssa.Value) bool {
+		refs := v.Referrers()
+		if refs == nil {
+			return false
+		}
+		for _, r := range *refs {
+			switch u := r.(type) {
+			case *ssa.DebugRef:
+			case *ssa.UnOp:
+				if u.Op != token.MUL {
+					return false
+				}
+			case *ssa.Store:
+				if u.Val == v {
+					return false
+				}
+			case *ssa.FieldAddr:
+				if !onlyLocal(u) {
+					return false
+				}
+			case *ssa.IndexAddr:
+				if u.X != v || !onlyLocal(u) {
+					return false
+				}
+			default:
+				return false
+			}
+		}
+		return true
+	}
+	for _, b := range e.fn.Blocks {
+		for _, in := range b.Instrs {
+			if a, ok := in.(*ssa.Alloc); ok && !a.Heap && onlyLocal(a) {
+				out = append(out, a)
+			}
+		}
+	}
+	e.privAllocs = &out
+	return out
+}
+
+// scalarLeaves lists the scalar cells below an address (nested structs, small arrays).
+func (e *fnEnc) scalarLeaves(addr string, t types.Type, out *[]leafCell) {
+	switch u := t.Underlying().(type) {
+	case *types.Struct:
+		for i := 0; i < u.NumFields(); i++ {
+			e.scalarLeaves(fldAddr(addr, i), u.Field(i).Type(), out)
+		}
+		return
+	case *types.Array:
+		if u.Len() <= 64 {
+			for i := int64(0); i < u.Len(); i++ {
+				e.scalarLeaves(idxAddr(addr, bvLit(64, uint64(i))), u.Elem(), out)
+			}
+		}
+		return
+	}
+	cs := e.sortOf(t)
+	if cs.heapKey() != "" {
+		*out = append(*out, leafCell{addr, cs})
+	}
+}
+
+type leafCell struct {
+	addr string
+	sort *Sort
+}
+
 func (e *fnEnc) havocAll(st *state) {
+	// cells of private locals, read before the memories are replaced
+	type kept struct {
+		leafCell
+		val string
+	}
+	var keep []kept
+	for _, a := range e.privateAllocs() {
+		at, ok := e.vals[a]
+		if !ok {
+			continue
+		}
+		var ls []leafCell
+		func() {
+			defer func() { recover() }()
+			e.scalarLeaves(at, a.Type().Underlying().(*types.Pointer).Elem(), &ls)
+		}()
+		for _, l := range ls {
+			keep = append(keep, kept{l, fmt.Sprintf("(select %s %s)", e.heap(st, l.sort.heapKey(), l.sort), l.addr)})
+		}
+	}
+	// scalar fields declared immutable (assigned only in the constructors: checkImmutables) of
+	// the objects whose invariant is tracked keep their value
+	for _, tv := range e.invTracked {
+		pt, ok := tv.typ.(*types.Pointer)
+		if !ok {
+			continue
+		}
+		named, ok := pt.Elem().(*types.Named)
+		if !ok || named.Obj().Pkg() == nil || e.isConstructorOf(named) {
+			continue
+		}
+		su, ok := named.Underlying().(*types.Struct)
+		if !ok {
+			continue
+		}
+		for _, im := range e.V.C.Immutables {
+			if im.Pkg != named.Obj().Pkg().Path() || im.Struct != named.Obj().Name() {
+				continue
+			}
+			for i := 0; i < su.NumFields(); i++ {
+				listed := false
+				for _, f := range im.Fields {
+					if f == "*" || f == su.Field(i).Name() {
+						listed = true
+					}
+				}
+				if !listed {
+					continue
+				}
+				switch su.Field(i).Type().Underlying().(type) {
+				case *types.Struct, *types.Array:
+					continue
+				}
+				var cs *Sort
+				func() {
+					defer func() { recover() }()
+					cs = e.sortOf(su.Field(i).Type())
+				}()
+				if cs == nil || cs.heapKey() == "" {
+					continue
+				}
+				a := fldAddr(tv.term, i)
+				keep = append(keep, kept{leafCell{a, cs}, fmt.Sprintf("(select %s %s)", e.heap(st, cs.heapKey(), cs), a)})
+			}
+		}
+	}
+	defer func() {
+		for _, k := range keep {
+			e.assume(st, eq(fmt.Sprintf("(select %s %s)", e.heap(st, k.sort.heapKey(), k.sort), k.addr), k.val))
+		}
+	}()
 	e.epochCtr++
 	// the ghost log of sent pointers is written only by the function itself
 	var sentlog string
@@ -723,14 +873,27 @@ func (e *fnEnc) declareInput(st *state, name string, t types.Type) string {
 
 // assumeWF states Go's memory-safety invariants for a value that comes from
 // outside (parameter, heap load, call result): slices well formed, references allocated.
+// notPrivate: a reference that was loaded, returned by a call or passed in is not (inside) a
+// local variable whose address never leaves the function (privateAllocs).
+func (e *fnEnc) notPrivate(st *state, ref string) {
+	for _, a := range e.privateAllocs() {
+		if at, ok := e.vals[a]; ok && at != ref {
+			e.assume(st, not(eq(app("root", ref), at)))
+		}
+	}
+}
+
 func (e *fnEnc) assumeWF(st *state, term string, t types.Type) {
 	switch u := t.Underlying().(type) {
 	case *types.Slice:
 		e.assume(st, and(app("slice_wf", term), fmt.Sprintf("(< (rootn (s_base %s)) %s)", term, st.next)))
+		e.notPrivate(st, app("s_base", term))
 	case *types.Pointer, *types.Map, *types.Chan, *types.Signature:
 		e.assume(st, and(app("ref_wf", term), fmt.Sprintf("(< (rootn %s) %s)", term, st.next)))
+		e.notPrivate(st, term)
 		e.assumeTypeInv(st, term, t, true)
 	case *types.Interface:
+		e.notPrivate(st, app("i_val", term))
 		e.assume(st, and(app("ref_wf", app("i_val", term)), fmt.Sprintf("(< (rootn (i_val %s)) %s)", term, st.next), fmt.Sprintf("(>= (i_tag %s) 0)", term),
 			fmt.Sprintf("(=> (= (i_tag %s) 0) (= (i_val %s) null))", term, term)))
 	case *types.Basic:
